@@ -42,17 +42,19 @@ def install_invariant(it):
     def hook(itp, st, key, dom, v):
         reads = st.notes.get('base:coins', ())
         if dom.startswith('keyed[coin_count]'):
-            st.assume(z3.Implies(v.data.present, z3.UGE(v.data.value, 1)))
+            st.assume_fact(z3.Implies(v.data.present, z3.UGE(v.data.value, 1)))
             a = key.arg(0)
             for k2, v2 in reads:
                 if M.hash_domain_of(k2) == 'single:CoinID' and not k2.eq(key):
-                    st.assume(z3.Implies(z3.And(v2.data.present, covhash_of(v2.data.value) == a), v.data.present))
+                    st.assume_fact(z3.Implies(z3.And(v2.data.present, covhash_of(v2.data.value) == a), v.data.present))
         elif dom == 'single:CoinID':
             for k2, v2 in reads:
                 d2 = M.hash_domain_of(k2)
                 if d2 and d2.startswith('keyed[coin_count]'):
-                    st.assume(z3.Implies(z3.And(v.data.present, covhash_of(v.data.value) == k2.arg(0)), v2.data.present))
+                    st.assume_fact(z3.Implies(z3.And(v.data.present, covhash_of(v.data.value) == k2.arg(0)), v2.data.present))
     it.base_read_hooks['coins'] = hook
+    it.base_pair_hooks.pop('coins', None)
+    it.base_single_hooks.pop('coins', None)
 
 
 def delta_claim(it, st0_tree, st, tree_after, id_terms, a):
